@@ -81,6 +81,9 @@ LEVEL_TEXT = (
     "C11_ranges_beyond_xsd: what the documented rules add, as data); the rule documents of the oracle are generated from the schema's required "
     "attributes and 114 schema-valid documents (an optional attribute dropped) must be accepted; the three Lean copies of IsInteger/IsFloat (C11 Lit, "
     "C18 Literals, C07 PointId) are proved equal for all strings with the two exact differences stated (C11_literal_recognisers_agree).  "
+    "Results reader: leafKind = kind of the format of the site in C12's regenerated Gen/XmlFmtSites.lean (159 element sites, decide), renderings are in the "
+    "reader's languages, hence every document of the writer MODEL (operands = renderings of arbitrary rationals / ints in their site's format) that meets the two "
+    "cov-mat count tests is accepted (C11_reader_accepts_writer_model_output).  "
     "Memory safety, termination and the located diagnostic of the real process are NOT "
     "proved: they are explored by running gama-local built with ASan+UBSan on grammar-derived, mutated and truncated inputs.")
 LEVEL_NOTE = (
@@ -116,9 +119,12 @@ TRUSTED = ["tools/gen/c11_gkf_automaton.py (mini-parser of gkfparser.cpp/.h; rai
            "attribute names, required attributes, value kinds and enumerations, children and occurrence bounds; differences are data: xmlns, from of "
            "dh/vec, the rules and ranges beyond the schema) and with the regenerated tables of the parser, both in both directions; what stays trusted of "
            "them is what neither states: Leaf'.count, bandElems (compared with finish_cov), the five ranges from the manual, emptyAbsent flags",
-           "Model/AdjResWriter.lean: hand tables leafKind (language of the operand the writer streams into each element: isInteger / isFloat / "
-           "apriori|aposteriori / free) and attrReq; that a finite double rendered by operator<< in scientific format is in FloatLang is NOT proved "
-           "(hypothesis WriterData of C11_reader_accepts_writer_output, with the cov-mat count tests dim <= unknowns and tmp_i == tmp_e)",
+           "Model/AdjResWriter.lean: the tables leafKind / attrReq are since round 11 checked by decide against C12's regenerated Gen/XmlFmtSites.lean and "
+           "Gen/XmlSites.lean (C11_leafKind_is_site_format, _is_table_kind, _tags_have_sites, C11_nonnumeric_operands_are_source) and every fixed / sci / gen "
+           "rendering of a rational resp. decimal rendering of an Int is in the reader's language (C11_rendering_in_reader_language), so the operand languages "
+           "hold for the writer model (C11_reader_accepts_writer_model_output); left: the hypothesis RunDemand (cov-mat count tests dim <= unknowns, tmp_i == tmp_e), "
+           "the .int site classification of tools/gen/c12_skeleton.py (a tag-name table), the macro -> URL resolution in tools/gen/c11_adjres.py, inf/nan (over Q out of scope); "
+           "the C11 check's translate regenerates three C12 Gen files (XmlSites, XmlSkeleton, XmlFmtSites) through C12's generators, written only on change",
            "harness/c11_adjres.cpp: includes the header with `private` re-defined (access only) and re-registers expat trampolines "
            "around the real `final` callbacks; members the constructor leaves unassigned are preset (tmp_i == tmp_e)",
            "harness/c11_gkf.cpp: subclass of GKFparser printing expat's events and the protected state/errCode/errString",
